@@ -199,6 +199,25 @@ def props_status(pid: str) -> dict:
     return res
 
 
+def coqchk(pid: str) -> dict:
+    """independent re-check of the compiled property file and everything it depends on (thorough tier)"""
+    rc, out = run(["timeout", "3000", "coqchk", "-silent", "-o", "-R", ".", "OSQ", f"OSQ.Props.{pid}"], cwd=env.COQ, timeout=3100)
+    axioms, mode = [], None
+    for line in out.splitlines():
+        t = line.strip()
+        if t.startswith("* Axioms:"):
+            mode = "ax"
+            continue
+        if t.startswith("* "):
+            mode = t
+            if "<none>" not in t and any(k in t for k in ("type-in-type", "unsafe", "positivity")):
+                axioms.append("UNSAFE: " + t)
+            continue
+        if mode == "ax" and t:
+            axioms.append(t)
+    return {"ok": rc == 0, "axioms": axioms, "tail": out[-600:]}
+
+
 def full_build(pid: str | None = None) -> dict:
     t0 = time.time()
     info: dict = {}
